@@ -159,6 +159,18 @@ DIRECTED: Dict[str, Dict[str, str]] = {
         'kit/__init__.py': 'from . import parts\nimport kit.tools\nclass Crate: pass\n', 'kit/parts.py': 'class Bolt: pass\n', 'kit/tools.py': 'class Saw: pass\n',
         'tools.py': 'class Saw: pass\n',
         'yard.py': 'from kit import *\nclass Y(parts.Bolt, tools.Saw): pass\n', 'far.py': 'from yard import *\nclass F(parts.Bolt):\n    t = tools\n'},
+    # alias assignments in a class body whose right-hand side starts with a name bound in that class body (import, module alias, nested
+    # class), the module binding the same names to other objects
+    'class-body-aliases': {
+        'pb/__init__.py': 'def fpb():\n    pass\nclass Alpha:\n    pass\n', 'pa/__init__.py': '', 'pa/m1.py': 'class Alpha:\n    pass\ndef fa():\n    pass\n',
+        'pa/m2.py': 'from pb import fpb as h\nimport pb as am\nclass Beta:\n    from pa.m1 import fa as h\n    import pa.m1 as am\n    k = h\n    mod = am\n    A = am.Alpha\n'
+                    '    class Inner:\n        pass\n    I = Inner\n    class Deep:\n        from pb import Alpha as Inner\n        J = Inner\ng = h\nB = am.Alpha\n'},
+    # an attribute of a package is named (dotted, in a base class) by a module analysed before the package's __init__ was: whatever was
+    # looked up at that time, the names must resolve once everything is processed
+    'package-attribute-named-before-its-init': {
+        'app/__init__.py': '', 'app/views.py': 'import lib.core.impl\nclass View(lib.core.Alpha):\n    pass\nclass View2(lib.core.impl.Alpha):\n    pass\n',
+        'lib/__init__.py': '', 'lib/core/__init__.py': 'from .impl import Alpha\nfrom .impl import make_alpha as mk\n',
+        'lib/core/impl.py': 'class Alpha:\n    pass\ndef make_alpha():\n    pass\n', 'lib/user.py': 'from lib.core import *\nimport lib.core as lc\nclass U(lc.Alpha):\n    pass\n'},
     # a class binds a name through a package that merely re-imports it (pydoctor may not follow that: "not at all" is allowed), while the
     # module and the enclosing class bind the same name to other objects (which Python never consults for the class)
     'class-binding-shadowed-by-enclosing-scopes': {
